@@ -23,9 +23,19 @@ EXPLANATION = (
     "(7) the assisted verify cap is built from the client's storage index / k / N / size and the helper's UEB "
     "hash, which the helper takes from the CHKUploader verify cap or from the hash of the fetched UEB, and the "
     "already-present short cut is taken only with all N shares found and no upload helper is then created or "
-    "used; (8) the client serves read_encrypted at the requested offset. "
+    "used; (8) the client serves read_encrypted at the requested offset; (9) every plaintext chunk the client "
+    "consumes is fed to the single stateful AES-CTR encryptor whether or not hash_only is set, no step of the read "
+    "chain RemoteEncryptedUploadable._read_encrypted -> EncryptAnUploadable.read_encrypted -> _read_encrypted -> "
+    "_hash_and_encrypt_plaintext -> aes.encrypt_data(self._encryptor, chunk) is control-dependent on hash_only, and "
+    "the encryptor is created only when none exists (a design that repositions the encryptor instead is reported as "
+    "undecided); (10) a failed ciphertext transfer reaches the fetcher's and the upload helper's errbacks, both "
+    "notify their observers / call Helper.upload_finished(self._storage_index, ..) on every path and evaluate nothing "
+    "before that which raises in the early-failure state (state only a later chain stage creates, attributes still "
+    "None, must-exist file operations, unless tested or inside try), and upload_finished removes the storage index "
+    "from _active_uploads under the key it was registered with. "
     "Undecided: byte equality of shares, crash interleavings between write and rename, foolscap transport, "
-    "honesty of the helper and of the storage servers answering the already-present query.")
+    "honesty of the helper and of the storage servers answering the already-present query; exceptions other than "
+    "the modelled early-failure ones inside the failure handlers.")
 TECHNIQUE = "static analysis: CFG path rules with typestate monitors, Deferred-chain order, who-may-write sweeps, normal-form agreement"
 
 OFF = "immutable.offloaded"
@@ -1068,6 +1078,9 @@ def run(ctx: Context):
             r.require(data_p in dep, he, he.loc(c), "the encryptor is fed %s, which is not the plaintext handed to "
                       "_hash_and_encrypt_plaintext" % src(he, c.args[1]))
             chunk_vars |= {l for l in leaves(c.args[1]) if "." not in l and l != data_p}
+            g = _flag_guard(n, c, flag)
+            r.require(g is None, he, he.loc(c), "aes.encrypt_data(self._encryptor, ..) is evaluated only under %s: skipped bytes "
+                      "(hash_only=True) do not advance the AES-CTR keystream" % (src(he, g) if g is not None else ""))
         # E1: with hash_only set the encryptor must still be reachable
         def hv_only(n, lab, nxt, st):
             if lab == "exc":
@@ -1119,6 +1132,11 @@ def run(ctx: Context):
                 raise AnchorVanished("%s no longer calls %s" % (top.qual, callee))
             for (g, c) in found:
                 r.site(g, c, what)
+                for n in g.cfg().nodes:
+                    if any(x is c for x in node_calls(n)):
+                        gd_ = _flag_guard(n, c, tflag)
+                        r.require(gd_ is None, g, g.loc(c), "%s (%s) is evaluated only under %s: skipped bytes must be read, "
+                                  "hashed and encrypted like served ones" % (callee, what, src(g, gd_) if gd_ is not None else ""))
                 level, gate = g, (lambda n, _c=c: any(x is _c for x in node_calls(n)))
                 while True:
                     bad, nst = _flag_dependent_skips(level, tflag, None, gate)
@@ -1271,8 +1289,11 @@ def run(ctx: Context):
             d2 = [x for x in sregs if x.recv == dv and x.target_name() == "self._done2"]
             r.require(all(sregs.index(x) < sregs.index(last) for x in d2), start, start.loc(last.call),
                       "the errback is registered before _done2: a failure inside the completion steps is not reported")
-            if fhandler is None:
-                raise AnchorVanished("the fetch chain's errback %s is not resolvable" % last.target_name())
+            if fhandler is None or fhandler.cls is None or fetcher not in fhandler.cls.mro():
+                r.violation(start, start.loc(last.call), "failures of the fetch chain go to %s, which is not a method of the "
+                            "fetcher: the upload helper never learns that the fetch failed and stays in Helper._active_uploads"
+                            % last.target_name())
+                fhandler = None
         if fhandler is not None:
             r.site(fhandler, None, "fetcher failure handler")
             p0 = first_positional_params(fhandler)[0]
@@ -1407,6 +1428,41 @@ def _flag_on_edge(fnorm, n, lab, flag):
             if op in ("is not", "!="):
                 v = not v
             return "T" if v else "F"
+    return None
+
+
+def _flag_guard(n, target, flag):
+    """A condition mentioning `flag` under which `target` (an expression inside CFG node n) is evaluated at all:
+    test of an enclosing conditional expression, earlier operand of an enclosing and/or, comprehension filter.
+    (These are not control flow in the CFG.)  None when the evaluation of target does not depend on the flag."""
+    def path_to(root):
+        if root is target:
+            return [root]
+        for ch in ast.iter_child_nodes(root):
+            if isinstance(ch, (ast.FunctionDef, ast.AsyncFunctionDef, ast.ClassDef, ast.Lambda)):
+                continue
+            p = path_to(ch)
+            if p:
+                return [root] + p
+        return None
+    for e in node_exprs(n):
+        path = path_to(e)
+        if not path:
+            continue
+        guards = []
+        for parent, child in zip(path, path[1:]):
+            if isinstance(parent, ast.IfExp) and child is not parent.test:
+                guards.append(parent.test)
+            elif isinstance(parent, ast.BoolOp):
+                i = [k for k, v in enumerate(parent.values) if v is child][0]
+                guards += parent.values[:i]
+            elif isinstance(parent, (ast.ListComp, ast.SetComp, ast.GeneratorExp, ast.DictComp)):
+                if not any(child is gen for gen in parent.generators):
+                    for gen in parent.generators:
+                        guards += gen.ifs
+        for g in guards:
+            if any(isinstance(x, ast.Name) and x.id == flag for x in ast.walk(g)):
+                return g
     return None
 
 
